@@ -149,6 +149,12 @@ func VH14a_backoff() {
 			verif.Reach("closed")
 			return
 		}
+		// a dialer that is at work cannot be started a second time - whatever its attempts have come to so far
+		if asynch || everConnected {
+			n := len(td.Dials)
+			verif.Assert(d.Dial() == mangos.ErrAddrInUse, lab+"/second-Dial-on-a-started-dialer-accepted")
+			verif.Assert(len(td.Dials) == n, lab+"/second-Dial-on-a-started-dialer-made-an-attempt")
+		}
 		// while open and failing a next attempt is always pending
 		verif.Assert(verif.PendingTimers() >= 1, lab+"/no-redial-pending-while-open")
 		if verif.PendingTimers() < 1 {
